@@ -69,31 +69,31 @@ theorem k_dim (n : Int) : kDim n = ⟨3 * n - 3, -1, 1 - n⟩ := by
 
 /-- a bare number gets exactly the order's units in the reaction's units system -/
 theorem bare_number_gets_k_dim (sys : Sys) (n : Int) (v : Rat) :
-    processUnitVar sys (kDim n) (.scalar (.num v)) = .ok (.scalar ⟨v, ⟨sys, ⟨3 * n - 3, -1, 1 - n⟩⟩⟩) := by
-  simp [processUnitVar, processScalar, k_dim]
+    processKInput sys (kDim n) (.scalar (.num v)) = .ok (.scalar ⟨v, ⟨sys, ⟨3 * n - 3, -1, 1 - n⟩⟩⟩) := by
+  simp [processKInput, processScalar, k_dim]
 
 /-- a quantity with units is accepted iff its dimension is the order's, and is then kept unchanged -/
 theorem uval_accepted_iff (sys : Sys) (n : Int) (x : UVal) :
-    (processUnitVar sys (kDim n) (.scalar (.uval x)) = .ok (.scalar x) ↔ x.u.dim = ⟨3 * n - 3, -1, 1 - n⟩) ∧
-    (x.u.dim ≠ ⟨3 * n - 3, -1, 1 - n⟩ → processUnitVar sys (kDim n) (.scalar (.uval x)) = .error .dimMismatch) := by
+    (processKInput sys (kDim n) (.scalar (.uval x)) = .ok (.scalar x) ↔ x.u.dim = ⟨3 * n - 3, -1, 1 - n⟩) ∧
+    (x.u.dim ≠ ⟨3 * n - 3, -1, 1 - n⟩ → processKInput sys (kDim n) (.scalar (.uval x)) = .error .dimMismatch) := by
   rw [← k_dim]
   constructor
   · constructor
     · intro h
       by_contra hne
-      simp [processUnitVar, processScalar, hne] at h
+      simp [processKInput, processScalar, hne] at h
     · intro h
-      simp [processUnitVar, processScalar, h]
+      simp [processKInput, processScalar, h]
   · intro hne
-    simp [processUnitVar, processScalar, hne]
+    simp [processKInput, processScalar, hne]
 
 /-- text with units: rejected when the unit text is unreadable or of another dimension -/
 theorem text_other_dim_rejected (sys : Sys) (n : Int) (v : Rat) (us : String) :
     (∀ u, parseUnits us = .ok u → u.dim ≠ ⟨3 * n - 3, -1, 1 - n⟩) →
-    (processUnitVar sys (kDim n) (.scalar (.text v us))).isError = true := by
+    (processKInput sys (kDim n) (.scalar (.text v us))).isError = true := by
   intro h
   rw [← k_dim] at h
-  simp only [processUnitVar, processScalar]
+  simp only [processKInput, processScalar]
   cases hp : parseUnits us with
   | error e => rfl
   | ok u =>
@@ -101,7 +101,7 @@ theorem text_other_dim_rejected (sys : Sys) (n : Int) (v : Rat) (us : String) :
     simp [this, Res.isError]
 
 /-- arrays are never accepted as rate constants -/
-theorem array_rejected (sys : Sys) (d : Dim) : processUnitVar sys d .array = .error .badValue := rfl
+theorem array_rejected (sys : Sys) (d : Dim) : processKInput sys d .array = .error .badValue := rfl
 
 /-! ## Parsing what was written -/
 
@@ -114,16 +114,20 @@ theorem parse_token_coef (a n m w b : List Char) (c : Int) (ha : AllBlank a) (hn
     (hmne : m ≠ []) (hw : IsWord w) (hb : AllBlank b) (hc : pyInt n = some c) :
     parseToken (a ++ n ++ m ++ w ++ b) = .ok (c, w) := parseToken_coef a n m w b c ha hn hm hmne hw hb hc
 
-/-- the decimal text of every coefficient 0..99 is a word that `int()` reads back (kernel evaluation; the
-statement's coefficients are 0..9) -/
-theorem coefficient_text : ∀ n < 100, pyInt (natDigits n) = some (n : Int) ∧ (natDigits n ≠ [] ∧
-    (natDigits n).all (fun c => !isBlank c) = true) := by decide +kernel
+/-- the decimal text `str(c)` of every integer coefficient is a word that `int()` reads back as `c` -/
+theorem coefficient_text (c : Int) : pyInt (pyStrInt c) = some c ∧ IsWord (pyStrInt c) := by
+  refine ⟨pyInt_showInt c, showIntChars_ne_nil c, fun x hx => (expChars_props x (showIntChars_mem c x hx)).1⟩
+
+/-- hence: a term written with the decimal text of `c`, any blanks -/
+theorem parse_token_render (a m w b : List Char) (c : Int) (ha : AllBlank a) (hm : AllBlank m) (hmne : m ≠ [])
+    (hw : IsWord w) (hb : AllBlank b) : parseToken (a ++ pyStrInt c ++ m ++ w ++ b) = .ok (c, w) :=
+  parseToken_coef a (pyStrInt c) m w b c ha (coefficient_text c).2 hm hmne hw hb (coefficient_text c).1
 
 /-- a side `t₁ + t₂ + …` whose tokens read as the terms `terms` gives their coefficients with repeats summed;
 a side of blanks only is empty -/
 theorem parse_side_render (t : List Char) (ts : List (List Char)) (terms : Terms)
     (hplus : ∀ x ∈ t :: ts, '+' ∉ x) (h : List.Forall₂ (fun tok tm => parseToken tok = .ok tm) (t :: ts) terms) :
-    parseSide (joinSep '+' t ts) = .ok (sumRepeats terms) := parseSide_terms t ts terms hplus h
+    parseSide (joinChar '+' t ts) = .ok (sumRepeats terms) := parseSide_terms t ts terms hplus h
 
 theorem parse_side_empty (a : List Char) (ha : AllBlank a) : parseSide a = .ok [] := parseSide_empty a ha
 
@@ -177,7 +181,7 @@ theorem split_spec_partial (sys : Sys) (sub prod : Side) (f b : UVal)
     (Reaction.split ⟨sys, sub, prod, .scalar f, .scalar b, label⟩) =
       .ok (⟨sys, sub, prod, .scalar f, .scalar ⟨0, ⟨sys, kDim prod.order⟩⟩, none⟩,
            ⟨sys, prod, sub, .scalar b, .scalar ⟨0, ⟨sys, kDim sub.order⟩⟩, none⟩) := by
-  simp [Reaction.split, mkReactionSides, checkLabel, processUnitVar, processScalar, KVal.toIn, hf, hb]
+  simp [Reaction.split, mkReactionSides, checkLabel, processKInput, processScalar, KVal.toIn, hf, hb]
 
 /-- every reaction the constructor accepts with single-valued constants satisfies the hypotheses of `split_spec_partial` -/
 theorem constructed_constants_have_k_dim (sys : Sys) (sub prod : Side) (kf kr : Scalar) (label : Option Label) (r : Reaction)
@@ -188,7 +192,7 @@ theorem constructed_constants_have_k_dim (sys : Sys) (sub prod : Side) (kf kr : 
   cases hl : checkLabel label with
   | error e => simp [hl] at h
   | ok u =>
-    simp only [hl, processUnitVar] at h
+    simp only [hl, processKInput] at h
     have key : ∀ (d : Dim) (s : Scalar) (x : UVal), processScalar sys d s = .ok x → x.u.dim = d := by
       intro d s x hx
       cases s with
@@ -228,7 +232,7 @@ theorem K_scalar (r : Reaction) (f b : UVal) (hf : r.kf = .scalar f) (hb : r.kr 
 the two values in that environment (or none when the reverse value is 0) -/
 theorem K_dict_entries (r : Reaction) (d : List (String × UVal)) (hf : r.kf = .dict d) :
     ∃ keys : List String, r.K = .dict (keys.map fun i =>
-      (i, ratioOrNone (valueInEnv r.kf i ⟨0, ⟨r.sys, kDim r.sub.order⟩⟩) (valueInEnv r.kr i ⟨0, ⟨r.sys, kDim r.prod.order⟩⟩))) ∧
+      (i, ratioOrNone (kValueInEnv r.kf i ⟨0, ⟨r.sys, kDim r.sub.order⟩⟩) (kValueInEnv r.kr i ⟨0, ⟨r.sys, kDim r.prod.order⟩⟩))) ∧
       "default" ∈ keys ∧ (∀ k ∈ d.map (·.1), k ∈ keys) ∧ (∀ k ∈ r.kr.keys, k ∈ keys) := by
   simp only [Reaction.K, hf]
   refine ⟨_, rfl, ?_, ?_, ?_⟩
